@@ -48,6 +48,7 @@
 (define-fun T_TUPLE () Int 6) (define-fun T_DICT () Int 7) (define-fun T_SET () Int 8)
 (define-fun T_NP () Int 9) (define-fun T_OBJECT () Int 10) (define-fun T_TYPE () Int 11)
 (declare-fun class_of (Int) Int)          ; class id of object id
+(assert (forall ((i Int)) (! (>= (class_of i) 100) :pattern ((class_of i)))))   ; objects are never of a value type
 (declare-fun obj_dictlen (V) Int)         ; len() of an object of a dict subclass
 ; the class table (subclass, meta_of, obj_truthy from the live classes) is inserted here
 ;;CLASS_TABLE;;
